@@ -176,5 +176,3 @@ func showModel(m Model) string {
 	}
 	return sb.String()
 }
-
-func cmdCheck(args []string) int { return 2 }
